@@ -86,6 +86,7 @@ type worldCfg struct {
 	OnlyEvmCoin bool
 	PoolEOAFrom int // first EOA key index that may appear as an address operand (senders below it stay out of the pool)
 	Senders     int // number of sender keys (default nEOA)
+	ModAddrs    bool // module accounts (x/evm's own, the fee collector) appear as tx recipients and address operands
 }
 
 // genEvmWorld generates a world with funded EOAs and 2..6 soup contracts.
@@ -153,6 +154,20 @@ func genEvmWorld(t *rapid.T, cfg worldCfg) chain.World {
 				c.Storage[common.BigToHash(big.NewInt(int64(slot))).Hex()] = common.BigToHash(new(big.Int).SetUint64(rapid.Uint64Range(1, 1<<30).Draw(t, "gval"))).Hex()
 			}
 		}
+		if rapid.IntRange(0, 3).Draw(t, "edgeslots") == 0 {
+			// slots at the edges of the key space (the last key of an account's storage range is where a range iterator's
+			// exclusive end bound bites) and a value that fills the whole word
+			if c.Storage == nil {
+				c.Storage = map[string]string{}
+			}
+			for _, k := range []string{"0xffffffffffffffffffffffffffffffffffffffffffffffffffffffffffffffff", "0x8000000000000000000000000000000000000000000000000000000000000000",
+				"0xfffffffffffffffffffffffffffffffffffffffffffffffffffffffffffffffe", "0x00000000000000000000000000000000000000000000000000000000000000ff"} {
+				if rapid.Bool().Draw(t, "edgeslot") {
+					c.Storage[k] = rapid.SampledFrom([]string{"0x000000000000000000000000000000000000000000000000000000000000002a",
+						"0xffffffffffffffffffffffffffffffffffffffffffffffffffffffffffffffff"}).Draw(t, "edgeval")
+				}
+			}
+		}
 		w.Contracts = append(w.Contracts, c)
 	}
 	return w
@@ -168,6 +183,9 @@ func worldGenCfg(w chain.World, cfg worldCfg) evmgen.GenCfg {
 		addrs = append(addrs, chain.K(i).Addr.Hex())
 	}
 	addrs = append(addrs, zeroAddr, deadAddr)
+	if cfg.ModAddrs {
+		addrs = append(addrs, modAddr("evm"), modAddr("fee_collector"))
+	}
 	return evmgen.GenCfg{Addrs: addrs, CallTargets: targets, NoCtx: cfg.NoCtx, NoGasRead: cfg.NoGasRead, NoCreate: cfg.NoCreate, NoDestruct: cfg.NoDestruct, MaxStmts: 5, Depth: 2}
 }
 
@@ -185,7 +203,12 @@ func genEthPlan(t *rapid.T, w chain.World, cfg worldCfg, allowInvalid bool) TxPl
 		p.To = ""
 		p.Data = evmgen.GenInit(t, gc)
 	case 1: // EOA / misc
-		p.To = rapid.SampledFrom([]string{chain.K(3).Addr.Hex(), chain.K(2).Addr.Hex(), deadAddr, zeroAddr, "0x0000000000000000000000000000000000000002"}).Draw(t, "toeoa")
+		misc := []string{chain.K(3).Addr.Hex(), chain.K(2).Addr.Hex(), deadAddr, zeroAddr, "0x0000000000000000000000000000000000000002"}
+		if cfg.ModAddrs {
+			// the x/evm module's own account, through which the StateDB moves every coin it mints or burns, and the fee collector
+			misc = append(misc, modAddr("evm"), modAddr("fee_collector"))
+		}
+		p.To = rapid.SampledFrom(misc).Draw(t, "toeoa")
 	default:
 		p.To = w.Contracts[rapid.IntRange(0, len(w.Contracts)-1).Draw(t, "tocontract")].Addr
 		if rapid.Bool().Draw(t, "hascd") {
@@ -218,6 +241,18 @@ func genEthPlan(t *rapid.T, w chain.World, cfg worldCfg, allowInvalid bool) TxPl
 	}
 	if allowInvalid && rapid.IntRange(0, 19).Draw(t, "gasbad") == 19 {
 		p.Gas = rapid.SampledFrom([]uint64{20999, 21000, 50000000}).Draw(t, "gasbadv")
+		if w.MaxGas > 0 {
+			// limits at the edges of the integer widths - only where the block gas limit is finite: with an unlimited block
+			// (max_gas = -1) and a near-zero price such a limit is affordable, and a looping contract then really runs for
+			// 2^63 gas (hours of CPU, tens of GB of cache layers): a property of that configuration, not of the code
+			p.Gas = rapid.SampledFrom([]uint64{20999, 21000, 50000000, 1<<32 - 1, 1 << 32, 1<<63 - 1, 1 << 63, 1<<64 - 1}).Draw(t, "gasedge")
+		}
+	}
+	if allowInvalid && rapid.IntRange(0, 24).Draw(t, "valbad") == 24 {
+		// values at the edges of the integer widths an implementation may narrow to
+		p.Value = rapid.SampledFrom([]string{"18446744073709551615", "18446744073709551616", "340282366920938463463374607431768211456",
+			"57896044618658097711785492504343953926634992332820282019728792003956564819968",
+			"115792089237316195423570985008687907853269984665640564039457584007913129639935"}).Draw(t, "valbadv")
 	}
 	// price
 	if cfg.FlatFee {
